@@ -60,6 +60,7 @@ type SpecFunc struct {
 	Result  *TypeExpr
 	Body    Expr
 	Src     string
+	Opaque  bool // applications are kept as calls of a declared function; the definition is a triggered axiom
 }
 
 type GhostVar struct {
@@ -299,12 +300,17 @@ func (sp *Specs) LoadSpecFile(path string, pkgPath string, external bool) error 
 			// spec func name(a T, b U) R = expr
 			cur = nil
 			s := strings.TrimSpace(strings.TrimPrefix(rest, "func"))
+			opaque := false
+			if strings.HasPrefix(s, "opaque ") {
+				opaque = true
+				s = strings.TrimSpace(strings.TrimPrefix(s, "opaque "))
+			}
 			i := strings.IndexByte(s, '(')
 			j := matchParen(s, i)
 			if i < 0 || j < 0 {
 				return fail(fmt.Errorf("bad spec func"))
 			}
-			sf := &SpecFunc{Name: strings.TrimSpace(s[:i]), PkgPath: pkgPath, Src: l}
+			sf := &SpecFunc{Name: strings.TrimSpace(s[:i]), PkgPath: pkgPath, Src: l, Opaque: opaque}
 			for _, item := range splitTop(s[i+1 : j]) {
 				f := strings.SplitN(item, " ", 2)
 				if len(f) != 2 {
